@@ -89,7 +89,7 @@ func DecodeAddress(addr string, defaultNet *chaincfg.Params) (Address, error) {
 	// Add prefix if it does not exist, and try bch prefix first
 	addrWithPrefix := addr
 	if !strings.EqualFold(addr[:len(bchPrefix)+1], bchPrefix+":") && !strings.EqualFold(addr[:len(slpPrefix)+1], slpPrefix+":") {
-		addrWithPrefix = bchPrefix + ":" + strings.ToLower(addr) // so we don't mix cases
+		addrWithPrefix = bchPrefix + ":" + asciiLower(addr) // so we don't mix cases
 	}
 
 	var cashaddrErr error
@@ -121,7 +121,7 @@ func DecodeAddress(addr string, defaultNet *chaincfg.Params) (Address, error) {
 		// try to decode with slp prefix instead
 		addrWithPrefix := addr
 		if !strings.EqualFold(addr[:len(bchPrefix)+1], bchPrefix+":") && !strings.EqualFold(addr[:len(slpPrefix)+1], slpPrefix+":") {
-			addrWithPrefix = slpPrefix + ":" + strings.ToLower(addr) // so we don't mix cases
+			addrWithPrefix = slpPrefix + ":" + asciiLower(addr) // so we don't mix cases
 		}
 
 		// Switch on decoded length to determine the type.
@@ -194,6 +194,19 @@ func DecodeAddress(addr string, defaultNet *chaincfg.Params) (Address, error) {
 }
 
 // TODO add p2sh32?
+// asciiLower lower-cases the ASCII letters of s and leaves every other byte
+// untouched.  strings.ToLower would also map non-ASCII runes such as U+212A
+// (KELVIN SIGN) to ASCII letters, making non-canonical strings decodable.
+func asciiLower(s string) string {
+	b := []byte(s)
+	for i, c := range b {
+		if c >= 'A' && c <= 'Z' {
+			b[i] = c + ('a' - 'A')
+		}
+	}
+	return string(b)
+}
+
 // ConvertSlpToCashAddress converts an slp formatted address to cash formatted address
 func ConvertSlpToCashAddress(addr Address, params *chaincfg.Params) (Address, error) {
 	switch a := addr.(type) {
